@@ -433,6 +433,18 @@ func runC10(c *core.Ctx) {
 		for ci, cmd := range c10Cmds {
 			res := srv.Fault(run.FaultJob{Args: append([]string{"--no-color", "-d", "food.yaml", "-l", "log.yaml", "--today", "2021/02/01"}, cmd.args...), SinkLimit: -1}, nil)
 			refs[[2]int{i, ci}] = res
+			if cmd.lintFile == "" {
+				// the same command started by a caller whose own context is already cancelled: nothing in the program
+				// observes that context, so the files are read to their ends and the report is the whole report
+				args := append([]string{"--no-color", "-d", "food.yaml", "-l", "log.yaml", "--today", "2021/02/01"}, cmd.args...)
+				plain, cancelled := srv.App1(args, nil), srv.AppCancelled(args)
+				c.Eval(2)
+				c.Count("l2_runs_under_a_cancelled_context", 1)
+				if cancelled.Panic != "" || cancelled.Out != plain.Out || cancelled.Exit != plain.Exit {
+					c.Violation(strings.Join(cmd.args[:min(2, len(cmd.args))], " ")+"|differs-under-a-cancelled-context", fmt.Sprintf("%s through RunContext with a cancelled context: exit %d, %d bytes; through Run: exit %d, %d bytes", joinArgs(cmd.args), cancelled.Exit, len(cancelled.Out), plain.Exit, len(plain.Out)),
+						caseDoc{Files: map[string]string{"food.yaml": wd.book, "log.yaml": wd.log}, Args: args, Expected: resDoc(plain), Observed: resDoc(cancelled)})
+				}
+			}
 			if res.Exit != 0 || res.Died != "" || res.Panic != "" {
 				c.HarnessError(fmt.Sprintf("fault-free run of %v failed: exit %d err %q %s %s\nbook:\n%s\nlog:\n%s", cmd.args, res.Exit, res.Err, res.Panic, res.Died, wd.book, wd.log))
 				return
